@@ -2,6 +2,7 @@ import Rare.Proofs.C16Views
 import Rare.Proofs.C16Seam
 import Rare.Proofs.C16Dissect
 import Rare.Proofs.C16Special
+import Rare.Proofs.C16Src
 import Rare.Gen.C16
 /-!
 Property C16: the JSON views `{.}`, `{#}`, `{.#}` of a match are valid, faithful and deterministic.
@@ -711,6 +712,108 @@ theorem getKey_json_iff_view (c : C02.MatchCtx) (key : Bytes) :
     have n1 : key ≠ [0x73, 0x72, 0x63] := by rcases h with h | h | h | h <;> subst h <;> decide
     have n2 : key ≠ [0x6c, 0x69, 0x6e, 0x65] := by rcases h with h | h | h | h <;> subst h <;> decide
     rw [if_neg n1, if_neg n2, if_pos h]
+
+/-! ### round 4: the translator tie – `isNumeric` statement by statement, the key switch, control skeletons -/
+
+/-- **The hand model of `isNumeric` is the source's function.**  `Rare.Gen.C16.isNumeric` is regenerated on
+every run from the body of `isNumeric` in pkg/minijson/minijson.go, statement by statement (the
+leading-zero guard, `i := 0`, the two `for ; i < len(s); i++` loops with their `if`s, early `return`s,
+`i++` and `break`, the final `return i > 0`; index arithmetic over `Int`, bytes by `s[i]`).  For EVERY byte
+string it computes what the list-recursive model (`numLoop1`, `numLoop2`) computes – so
+`numeric_iff_plain_json_number`, `numeric_same_rational`, … are theorems about the code as it is in /repo,
+and a changed comparison, constant, branch or statement order there breaks this theorem. -/
+theorem isNumeric_matches_source (s : Bytes) : isNumeric s = Gen.C16.isNumeric s := by
+  unfold isNumeric Gen.C16.isNumeric
+  simp only []
+  by_cases hg : 1 < s.length ∧ s.head? = some 0x30 ∧ s.tail.head? ≠ some 0x2e
+  · rw [if_pos hg, if_pos ((guard_eq s).mpr hg)]
+  · rw [if_neg hg, if_neg (fun h => hg ((guard_eq s).mp h))]
+    refine (loops_eq s _ _ ?_ ?_).symm
+    · intro pre c r hs
+      subst hs
+      simp only [byteAt_mid, decide_eq_true_eq, dot_iff, Bool.or_eq_true, bad_iff]
+      by_cases hdot : c = 0x2e
+      · simp only [hdot, if_true]
+        by_cases h0 : pre.length = 0
+        · simp [h0]
+        · have h0' : ¬ ((pre.length : Int) = 0) := by omega
+          simp only [h0, h0', if_false]
+          by_cases hr : r = []
+          · simp [hr]
+          · have hp := List.length_pos_iff.mpr hr
+            have : ¬ ((pre.length : Int) + 1 ≥ ((pre ++ 0x2e :: r).length : Int)) := by
+              simp only [List.length_append, List.length_cons]; omega
+            simp only [this, if_false, hr]
+      · simp only [hdot, if_false]
+    · intro pre c r hs
+      subst hs
+      simp only [byteAt_mid, decide_eq_true_eq, Bool.or_eq_true, bad_iff]
+
+/-- **The key switch of `GetKey`**: the cases that answer with `s.json(named, numbered)`, taken from the
+source, are exactly `viewFlags` (and therefore `getKeyJson`, `view_keys`): `"."` ↦ named only, `"#"` ↦
+numbered only, `".#"` and `"#."` ↦ both; every other key is not a JSON view. -/
+theorem key_switch_is_source (key : Bytes) :
+    viewFlags key = ((Gen.C16.jsonKeyCases.find? fun row => row.1.contains key).map fun row => row.2) := by
+  have e : Gen.C16.jsonKeyCases =
+      [([[0x2e]], true, false), ([[0x23]], false, true), ([[0x2e, 0x23], [0x23, 0x2e]], true, true)] := by decide
+  rw [e]
+  unfold viewFlags
+  by_cases h1 : key = [0x2e]
+  · subst h1; decide
+  · by_cases h2 : key = [0x23]
+    · subst h2; decide
+    · by_cases h3 : key = [0x2e, 0x23]
+      · subst h3; decide
+      · by_cases h4 : key = [0x23, 0x2e]
+        · subst h4; decide
+        · have b1 : (key == [0x2e]) = false := by simpa using h1
+          have b2 : (key == [0x23]) = false := by simpa using h2
+          have b3 : (key == [0x2e, 0x23]) = false := by simpa using h3
+          have b4 : (key == [0x23, 0x2e]) = false := by simpa using h4
+          simp [h1, h2, h3, h4, List.find?, List.contains, List.elem, b1, b2, b3, b4]
+
+/-- **Control skeletons of the functions the model mirrors**, regenerated from /repo (statement texts without
+white space, blocks bracketed): `json` (names collected, `sort.Strings`, named loop BEFORE the numbered loop,
+numbered loop from 0 to `len(indices)/2` skipping empty values, every value through `WriteInferred`),
+`buildSpecialKeyJson` (indexed arguments first, then the sorted keys, all through `WriteString`),
+`parseKeyValue` / `parseKeyValuesIntoMap`, `MarshalStringMapInferred` (no sort), `WriteInferred` (numeric test,
+then the two length-guarded `EqualFold`s, then string), `WriteInt`, `escape` and `createGroupNameTable`.
+`Model/C16.lean` was written against these; a reordered loop, a dropped sort, a changed bound or a changed
+call in /repo breaks this theorem. -/
+theorem control_skeletons_are_source :
+    Gen.C16.jsonOutline =
+      ["varjbminijson.JsonObjectBuilder", "jb.OpenEx(len(s.nameTable)*50)", "if named{",
+       "names:=make([]string,0,len(s.nameTable))", "range name:=s.nameTable{", "names=append(names,name)", "}",
+       "sort.Strings(names)", "range _,name:=names{", "jb.WriteInferred(name,s.GetMatch(s.nameTable[name]))", "}", "}",
+       "if numbered{", "for i:=0;i<len(s.indices)/2;i++{", "if val:=s.GetMatch(i);val!=\"\"{",
+       "jb.WriteInferred(strconv.Itoa(i),val)", "}", "}", "}", "jb.Close()", "returnjb.String()"] ∧
+    Gen.C16.specialOutline =
+      ["varjsonminijson.JsonObjectBuilder", "json.Open()", "range i,val:=matches{",
+       "json.WriteString(strconv.Itoa(i),val)", "}", "keys:=make([]string,0,len(values))", "range k:=values{",
+       "keys=append(keys,k)", "}", "sort.Strings(keys)", "range _,k:=keys{", "json.WriteString(k,values[k])", "}",
+       "json.Close()", "returnjson.String()"] ∧
+    Gen.C16.parseKeyValueOutline =
+      ["idx:=strings.IndexByte(s,'=')", "if idx<0{", "returns,s", "}", "returns[:idx],s[idx+1:]"] ∧
+    Gen.C16.parseKeyValuesIntoMapOutline =
+      ["ret:=make(map[string]string)", "range _,item:=kvs{", "k,v:=parseKeyValue(item)", "ret[k]=v", "}", "returnret"] ∧
+    Gen.C16.marshalOutline =
+      ["varjbJsonObjectBuilder", "jb.OpenEx(len(s)*50)", "range k,v:=s{", "jb.WriteString(k,v)", "}", "jb.Close()",
+       "returnjb.String()"] ∧
+    Gen.C16.writeInferredOutline =
+      ["if isNumeric(val){", "s.WriteLiteral(key,val)", "}", "else{",
+       "if len(val)==4&&strings.EqualFold(val,\"true\"){", "s.WriteLiteral(key,\"true\")", "}", "else{",
+       "if len(val)==5&&strings.EqualFold(val,\"false\"){", "s.WriteLiteral(key,\"false\")", "}", "else{",
+       "s.WriteString(key,val)", "}", "}", "}"] ∧
+    Gen.C16.writeIntOutline = ["s.writeKey(key)", "s.sb.WriteString(strconv.Itoa(val))"] ∧
+    Gen.C16.escapeOutline =
+      ["varsbstrings.Builder", "hasMapped:=false", "for i:=0;i<len(s);i++{", "c:=s[i]",
+       "if int(c)<len(escapeLookup)&&escapeLookup[c]!=\"\"{", "if !hasMapped{", "sb.Grow(len(s)+5)",
+       "sb.WriteString(s[:i])", "hasMapped=true", "}", "sb.WriteString(escapeLookup[c])", "}", "else{",
+       "if hasMapped{", "sb.WriteByte(c)", "}", "}", "}", "if hasMapped{", "returnsb.String()", "}", "returns"] ∧
+    Gen.C16.regexTableOutline =
+      ["ret=make(map[string]int)", "range idx,name:=re.SubexpNames(){", "if name!=\"\"{", "ret[name]=idx", "}", "}",
+       "return"] := by
+  decide
 
 /-! ### non-vacuity -/
 
